@@ -282,9 +282,10 @@ impl Stream for Choppy {
 // ---------------------------------------------------------------------------------------------------------------------
 // instruments menu
 
-pub static INSTRUMENTS: [usize; 5] = [0, 32, 7, 103, 107];
-pub fn instruments_name(i: usize) -> &'static str { match i { 0 => "NoInstruments", 32 => "LogsWithoutMetrics", 7 => "MetricsWithoutLogs", 103 => "LogsWithMetrics", 107 => "LogsWithExpensiveMetrics", _ => "?" } }
-pub fn metrics_on(i: usize) -> bool { Instruments::from(i).metrics() }
+pub static INSTRUMENTS: [usize; 9] = [0, 32, 7, 103, 107, 1, 2, 8, 36];
+pub fn instruments_name(i: usize) -> &'static str { match i { 0 => "NoInstruments", 32 => "LogsWithoutMetrics", 7 => "MetricsWithoutLogs", 103 => "LogsWithMetrics", 107 => "LogsWithExpensiveMetrics", 1 => "Custom(COUNTERS)", 2 => "Custom(SATURATION)", 8 => "Custom(EXPENSIVE_PROFILING)", 36 => "Custom(LOG|CHEAP_PROFILING)", _ => "?" } }
+/// metrics are enabled iff any of COUNTERS (1), SATURATION (2), CHEAP_PROFILING (4), EXPENSIVE_PROFILING (8) is set (src/instruments.rs)
+pub fn metrics_on(i: usize) -> bool { i & 15 != 0 }
 
 macro_rules! by_instruments {
     ($i:expr, $I:ident => $e:expr) => {
@@ -294,6 +295,10 @@ macro_rules! by_instruments {
             7   => { const $I: usize = 7; $e },
             103 => { const $I: usize = 103; $e },
             107 => { const $I: usize = 107; $e },
+            1   => { const $I: usize = 1; $e },
+            2   => { const $I: usize = 2; $e },
+            8   => { const $I: usize = 8; $e },
+            36  => { const $I: usize = 36; $e },
             other => panic!("unsupported instruments {other}"),
         }
     }
@@ -485,7 +490,7 @@ impl Property for C11Exec {
     fn cases(&self, tier: Tier) -> u32 { match tier { Tier::Quick => 4_000, Tier::Thorough => 80_000 } }
     fn run(&self, case: &ExecCase) -> RunReport { exec_report(case, "c11") }
     fn rule(&self) -> String {
-        "generated: StreamExecutor::{spawn_executor | spawn_futures_executor | spawn_fallibles_executor | spawn_non_futures_executor | spawn_non_futures_non_fallibles_executor} x instruments {None, LogsWithoutMetrics, MetricsWithoutLogs, LogsWithMetrics, LogsWithExpensiveMetrics} x futures timeout {off, on} x concurrency limit 1..8 x runtime {current_thread with the clock paused, multi_thread(2), multi_thread(4)} x 0..39 items over {ok, ok after k yields, ok once a gate opens, error, error after k yields, slow = never completes by itself (timeout on only)} (adapted to what the executor kind can express) x a source stream that answers Pending at generated polls x the instant the gate opens; \
+        "generated: StreamExecutor::{spawn_executor | spawn_futures_executor | spawn_fallibles_executor | spawn_non_futures_executor | spawn_non_futures_non_fallibles_executor} x instruments {None, LogsWithoutMetrics, MetricsWithoutLogs, LogsWithMetrics, LogsWithExpensiveMetrics, Custom(COUNTERS), Custom(SATURATION), Custom(EXPENSIVE_PROFILING), Custom(LOG|CHEAP_PROFILING)} x futures timeout {off, on} x concurrency limit 1..8 x runtime {current_thread with the clock paused, multi_thread(2), multi_thread(4)} x 0..39 items over {ok, ok after k yields, ok once a gate opens, error, error after k yields, slow = never completes by itself (timeout on only)} (adapted to what the executor kind can express) x a source stream that answers Pending at generated polls x the instant the gate opens; \
          oracle: every item enters processing exactly once and completes unless it is slow (also after failures and time-outs); slow items' futures are dropped uncompleted; error callback exactly once per failed item and never otherwise; at most `limit` item futures in progress at any instant (gauge inside the items); in the close callback: exactly one call, after the last item, status StreamEnded, finish >= start, and with metrics on ok / timed-out / failed each equal the intended number (so they add up to the item count), with metrics off all zero; with a real clock, items meant to complete are ready at their first poll so a time-out can never hit them; \
          non-trivial: the sequence mixes at least two outcome kinds".into()
     }
